@@ -398,14 +398,11 @@ case("c13-completestage-branch-loses-event", "C13", "mutant", [(H + "complete_st
                         txn.store_stage(stage)
 
                         # Message deduplication""")], "C13.R5")
-case("c13-publish-inside-scope", "C13", "mutant", [("src/stabilize/events/recorder/base.py", """        if self._publish_to_bus:
-            if scope is not None:
-                scope.pending.append(recorded)
+case("c13-publish-inside-scope", "C13", "mutant", [("src/stabilize/events/recorder/base.py", """                scope.pending.append(recorded)
             else:
                 try:
-                    get_event_bus().publish(recorded)""", """        if self._publish_to_bus:
-            if scope is not None and False:
-                scope.pending.append(recorded)
+                    get_event_bus().publish(recorded)""", """                scope.pending.append(recorded)
+                get_event_bus().publish(recorded)
             else:
                 try:
                     get_event_bus().publish(recorded)""")], "C13.R1")
@@ -422,7 +419,9 @@ case("c13-abort-publishes", "C13", "mutant", [("src/stabilize/events/txn_scope.p
             get_event_bus().publish(event)""")], "C13.R3")
 case("c13-eventstore-always-commits", "C13", "mutant", [("src/stabilize/events/store/sqlite/events.py", """            if should_commit:
                 conn.commit()
+
             return result_events""", """            conn.commit()
+
             return result_events""")], "C13.R4")
 case("c13-refactor-event-after-mark", "C13", "refactor", [(H + "complete_stage/handler.py", """                        txn.store_stage(stage)
                         self._record_completion_event(stage, status)
